@@ -235,6 +235,13 @@ func gRoute(c *Check) {
 			case sk.Kind == "field" && sk.Field == stepsF && sk.Via == "elemof":
 				f := fi.FactsAt(sk.Instr)
 				elem := elemOfStoreAppend(fi, sk.Instr)
+				if elem == nil {
+					// a local accumulator stored at the end: the facts that matter are those at the append
+					if ap, e := appendOfQueueElem(fi, fn, src.v); ap != nil {
+						f = fi.FactsAt(ap)
+						elem = e
+					}
+				}
 				okAsync := f.HasBool(func(s *Sym) bool { return s.K == KField && s.Fld == asyncF }, false) != nil
 				if !okAsync && len(fn.Params) > 0 && fn.Signature.Recv() != nil {
 					// the mode test may sit in the caller of a helper
@@ -338,6 +345,36 @@ func (p *Prog) constU64(pkg, name string) uint64 {
 }
 
 // elemOfStoreAppend: for `F = append(F, x)` stored by st, the symbol of x.
+// appendOfQueueElem: the builtin append in fn whose single appended element is an element of the
+// queue value src (indexed or ranged), with that element's symbol.
+func appendOfQueueElem(fi *FuncInfo, fn *ssa.Function, src ssa.Value) (ssa.Instruction, *Sym) {
+	srcKey := fi.Sym(src).Key()
+	var found ssa.Instruction
+	var elem *Sym
+	n := 0
+	for _, b := range fn.Blocks {
+		for _, in := range b.Instrs {
+			call, ok := in.(*ssa.Call)
+			if !ok || !fi.Live(in) {
+				continue
+			}
+			_, elems, _, okA := appendParts(call)
+			if !okA || len(elems) != 1 {
+				continue
+			}
+			es := fi.Sym(elems[0])
+			if es.K == KIndex && len(es.Args) == 2 && es.Args[0].Key() == srcKey {
+				n++
+				found, elem = in, es
+			}
+		}
+	}
+	if n != 1 {
+		return nil, nil
+	}
+	return found, elem
+}
+
 func elemOfStoreAppend(fi *FuncInfo, in ssa.Instruction) *Sym {
 	st, ok := in.(*ssa.Store)
 	if !ok {
